@@ -54,44 +54,66 @@ def run(check, an: Analysis):
                    'child matches some listed type)')
     sub = an.callee(META, '__subclasscheck__')
     sparams = [a.arg for a in sub.fn.node.args.args]
-    table = {}
+    c, s = sparams[0], sparams[1]
+    table_ok, guard_ok, n_rows, bad = True, True, 0, None
+    rows = set()
     for path in an.paths(sub):
         if path.kind != 'return':
             continue
-        conds = []
+        n_rows += 1
+        # what the method itself tested on this path (not its helper)
+        facts, caught = {}, False
         for event in path.events:
             if event.fn is not sub.fn:
-                continue   # inside an inlined helper
-            if event.kind == 'test' and event.depth == 0:
-                conds.append((ast.unparse(event.node), event['value']))
-            elif event.kind == 'handler':
-                conds.append(('except ' + event['exc'].replace('ext:', ''), True))
-        table[tuple(conds)] = ast.unparse(path.outcome[1])
-    c, s = sparams[0], sparams[1]
-    same = '%s is %s' % (c, s)
-    tmpl = None
-    for conds in table:
-        for text, _v in conds:
-            if 'template' in text and '==' in text:
-                tmpl = text
-    want_table = {
-        ((same, True),): 'True',
-        ((same, False), ('except AttributeError', True)): 'False',
-        ((same, False), (tmpl, True), ('%s.specialisations is None' % c, True)): 'True',
-        ((same, False), (tmpl, True), ('%s.specialisations is None' % c, False)):
-            '%s._subclasscheck_specialisation(%s)' % (c, s),
-        ((same, False), (tmpl, False)): 'False',
-    }
-    tmpl_ok = tmpl is not None and equal_bool(
-        tmpl.replace('template', '%s.template' % s, 1) if tmpl.startswith('template')
-        else tmpl, '%s.template == %s.template' % (s, c))
-    src = rules.local_values(sub.fn, 'template')
-    tmpl_ok = tmpl_ok and len(src) == 1 and src[0] is not None and \
-        ast.unparse(src[0]) == '%s.template' % s
-    check.instance('B', '__subclasscheck__:path-table', table == want_table and tmpl_ok,
+                continue
+            if event.kind == 'test' and event.depth == 0 and event.get('key') is not None:
+                facts[event['key']] = key_truth(event)
+            elif event.kind == 'handler' and 'AttributeError' in event['exc']:
+                caught = True
+        same = facts.get(('is',) + tuple(sorted((c, s))))
+        template = [v for k, v in facts.items() if k[0] == 'eq' and 'template' in k[1]
+                    and 'template' in k[2]]
+        bare_cls = facts.get(('isnone', '%s.specialisations' % c))
+        bare_sub = facts.get(('isnone', '%s.specialisations' % s))
+        got = ast.unparse(path.outcome[1])
+        if same is True:
+            want, row = 'True', 'identical'
+        elif caught:
+            want, row = 'False', 'not-a-template'
+        elif template == [False]:
+            want, row = 'False', 'other-template'
+        elif template == [True] and bare_cls is True:
+            want, row = 'True', 'bare-superclass'
+        elif template == [True] and bare_cls is False and bare_sub is True:
+            want, row = 'False', 'bare-subclass'
+        elif template == [True] and bare_cls is False:
+            want, row = '%s._subclasscheck_specialisation(%s)' % (c, s), 'specialised'
+            # the predicate walks the children of both: neither may be the bare class
+            if bare_sub is not False:
+                guard_ok = False
+                bad = bad or path
+        else:
+            want, row = '?', 'unexpected'
+        rows.add(row)
+        if got != want:
+            table_ok = False
+            bad = bad or path
+    tmpl_src = rules.local_values(sub.fn, 'template')
+    tmpl_ok = len(tmpl_src) != 1 or (tmpl_src[0] is not None and
+                                      ast.unparse(tmpl_src[0]) == '%s.template' % s)
+    check.instance('B', '__subclasscheck__:path-table', table_ok and tmpl_ok and
+                   {'identical', 'not-a-template', 'other-template', 'bare-superclass',
+                    'specialised'} <= rows and 'unexpected' not in rows,
                    where_fn(sub.fn), 'identity -> True; no template -> False; same template: '
-                   'unspecialised -> True else the specialisation predicate; other template '
-                   '-> False (%d return paths)' % len(table), analysed=len(table))
+                   'unspecialised superclass -> True, unspecialised subclass -> False, else '
+                   'the specialisation predicate; other template -> False (%d return paths: '
+                   '%s)' % (n_rows, sorted(rows)), analysed=n_rows,
+                   path=rules.path_lines(bad) if bad and not table_ok else None)
+    check.instance('B', '__subclasscheck__:children-present', guard_ok,
+                   where_fn(sub.fn), 'the specialisation predicate walks '
+                   '`.specialisations` of both classes: it is only reached when neither is '
+                   'the bare class (whose specialisations are None)',
+                   path=rules.path_lines(bad) if bad and not guard_ok else None)
     inst = an.callee(META, '__instancecheck__')
     iparams = [a.arg for a in inst.fn.node.args.args]
     forms = {rules.value_text(p, len(p.events), p.outcome[1]) for p in an.paths(inst)
